@@ -228,8 +228,8 @@ func docJSON(d jDoc, kind, reg string, explicitRule bool) ([]byte, error) {
 	for _, l := range d.Lines {
 		ln := map[string]any{"quantity": amtString(l.Qty), "item": itemJSON(l.Price, l.ICD, l.FX, l.Alt)}
 		if len(l.Subs) > 0 {
-			// the price comes from the breakdown
-			ln["item"] = map[string]any{"name": "item"}
+			// the price comes from the breakdown: the parent item's own price, currency and alternative
+			// prices (kept in the input) are replaced by it
 			bd := []any{}
 			for _, sl := range l.Subs {
 				sm := map[string]any{"quantity": amtString(sl.Qty), "item": itemJSON(sl.Price, sl.ICD, sl.FX, sl.Alt)}
@@ -860,7 +860,13 @@ func randDoc(r *rand.Rand) jDoc {
 				}
 				l.Subs = append(l.Subs, sl)
 			}
-			l.FX, l.Alt, l.ICD = nil, nil, d.CD
+			if r.Intn(3) != 0 {
+				l.FX, l.Alt, l.ICD = nil, nil, d.CD
+			} else if len(l.FX) == 0 {
+				// a parent item priced in another currency: its price and currency give way to the breakdown's
+				l.ICD = []int{0, 2, 3}[r.Intn(3)]
+				l.FX = []tr.Amt{fxRates[l.ICD]}
+			}
 			l.Qty = tr.Amt{V: tr.BigOfInt(int64(1 + r.Intn(20))), E: 0}
 			if r.Intn(6) == 0 {
 				l.Qty.V = tr.BigOfInt(-int64(1 + r.Intn(20)))
